@@ -221,6 +221,7 @@ def shards(tier, seed):
     out += [("history", k) for k in range(len(HIST_SIZES))]
     out += [("pairs", iface) for iface in ("wsgi", "asgi")]
     out.append(("defaultchunk",))
+    out.append(("sameobject",))
     return out
 
 
@@ -314,6 +315,38 @@ def run_shard(desc, tier):
     if desc[0] == "pairs":
         run_pairs(r, desc[1])
         return r
+    if desc[0] == "sameobject":
+        # one FileResponse object used as the application for a sequence of requests (a response object *is* an application):
+        # every answer must be the one a fresh object gives to the same request
+        t = Tree()
+        try:
+            path = t.file(20)
+            menu = [[], [("Range", "bytes=2-3")], [("Range", "bytes=0-1,5-6")], [("Range", "bytes=40-")], [("Range", "junk")], [("Range", "bytes=0-3"), ("If-Range", '"stale"')]]
+            for iface in ("wsgi", "asgi", "zerocopy"):
+                m = __import__("baize.wsgi" if iface == "wsgi" else "baize.asgi", fromlist=["x"])
+                for seq in itertools.permutations(range(len(menu)), 3):
+                    shared = m.FileResponse(path, chunk_size=4)
+                    for step, mi in enumerate(seq):
+                        for method in ("GET", "HEAD") if step == 2 else ("GET",):
+                            req = SV.AReq(method=method, headers=menu[mi])
+                            random.seed(12345)
+                            ext = {"http.response.zerocopysend": {}} if iface == "zerocopy" else None
+                            def go(app):
+                                random.seed(12345)
+                                return SV.run_wsgi(app, SV.to_environ(req)) if iface == "wsgi" else SV.run_asgi(app, SV.to_scope(req, extensions=ext), SV.to_messages(req))
+                            a, b = go(shared), go(m.FileResponse(path, chunk_size=4))
+                            r.count("evaluations")
+                            r.count("distinct_nontrivial")
+                            oa = (a.status, a.header_multiset(), a.body, type(a.exc).__name__ if a.exc else None)
+                            ob = (b.status, b.header_multiset(), b.body, type(b.exc).__name__ if b.exc else None)
+                            if oa != ob:
+                                diff = sorted(set(map(tuple, oa[1])) ^ set(map(tuple, ob[1])))
+                                r.violation(f"sameobject:{iface}", {"sameobject": iface, "seq": list(seq), "step": step, "method": method},
+                                            f"{iface} one FileResponse object serving requests {[menu[i] for i in seq[:step + 1]]}: answer {step} ({method}) differs from a fresh object's: status {oa[0]} vs {ob[0]}, headers differing {diff[:4]}, body equal: {oa[2] == ob[2]}")
+            r.sample({"sameobject": "one FileResponse object, request sequences of length 3 from 6 requests"})
+        finally:
+            t.close()
+        return r
     if desc[0] == "defaultchunk":
         # file sizes and range ends around the default chunk size (4096 * 64) with the default chunk size
         D = 4096 * 64
@@ -388,6 +421,9 @@ def finish(merged, tier):
 
 def replay(w):
     r = R()
+    if "sameobject" in w:
+        rr = run_shard(("sameobject",), "quick")
+        return bool(rr.viol), {"violations": sorted(rr.viol), "texts": [v[2][:300] for v in rr.viol.values()]}
     if "pairs" in w:
         run_pairs(r, w["pairs"])
         return bool(r.viol), {"violations": sorted(r.viol), "texts": [v[2][:300] for v in r.viol.values()]}
